@@ -19,6 +19,7 @@ type Gen struct {
 	lits      []string
 	heavy     bool // rare runs with extreme arguments
 	wildSpecs bool // also produce malformed format directives (P20: totality)
+	focus     bool // a focus program: the tree has new shared state, schedules lean towards synchronisation events
 }
 
 func hx(b []byte) string { return hex.EncodeToString(b) }
